@@ -282,13 +282,13 @@ def run(case):
 
 # ----------------------------------------------------------------------------- workloads
 
-def gen_rows(rng, dtype, matrix, tier):
+def gen_rows(rng, dtype, matrix, tier, vclass="small"):
     r = rng.randint(1, 5 if tier == "quick" else 9)
     maxc = 7 if tier == "quick" else 16
     if matrix:
         c = rng.randint(1, maxc)
-        return [np.resize(rl.gen_runs(rng, dtype, "small", c)[0], c).tolist() for _ in range(r)]
-    return [rl.gen_runs(rng, dtype, "small", maxc)[0].tolist() for _ in range(r)]
+        return [np.resize(rl.gen_runs(rng, dtype, vclass, c)[0], c).tolist() for _ in range(r)]
+    return [rl.gen_runs(rng, dtype, vclass, maxc)[0].tolist() for _ in range(r)]
 
 
 def sel_rows(rng, n, kinds=("slice", "list", "mask", "ell")):
@@ -337,7 +337,7 @@ def gen_case(rng, tier, op=None, variant=None, dtype=None):
     ragged_only = op in ("col_int", "col_slice", "ravel", "concat", "npfunc")
     variant = variant or rng.choice(["ragged", "ragged_from_matrix"] if ragged_only else ["2d", "ragged", "ragged_from_matrix"])
     for _ in range(30):
-        pyrows = gen_rows(rng, dtype, variant != "ragged", tier)
+        pyrows = gen_rows(rng, dtype, variant != "ragged", tier, "sparse" if (op in ("red_row", "red_col", "unary") and rng.random() < 0.5) else "small")
         n = len(pyrows)
         c = {"op": op, "variant": variant, "dtype": dtype, "rows": pyrows}
         if variant == "2d" and np.dtype(dtype).kind in "iub" and rng.random() < 0.3:
